@@ -1,15 +1,15 @@
 """C18 - connection setup honours the URL and fails cleanly on bad input."""
 import os
 from facts import walk, callee_of, call_args, loc
-import hirq, anchors, absx, cone, engine, sem
+import hirq, anchors, absx, cone, engine, sem, strdom
 
 EXPLANATION = ("U1 panic-source cone (MIR call graph) from the eight public constructors, stopped at the operation issue point and the "
                "driver loop (what lies behind them is driven by server data and decided by C11): every diverging call, Assert terminator "
                "and may-panic external call must be absent or reviewed in rules/triage/C18.tsv; U2 all paths of the TCP constructor: the "
                "address connected to is `<host>:<port>` with host = the URL's host, or localhost when it is absent or empty, and port = "
                "the URL's port, else 389 for ldap and 636 for ldaps; any other scheme returns UnknownScheme; the mode of every connection handed back, read off the path's events, is the scheme's: ldaps = TLS from the first byte whatever the StartTLS setting says, ldap = StartTLS exactly when the setting is requested, cleartext otherwise (the setting as the path found it: a getter applied after builder calls is resolved by the meaning of the builder interface, not by where the test sits); ldapi goes to the Unix "
-               "constructor; U3 the Unix constructor: empty path -> EmptyUnixPath, ':' in the path -> PortInUnixPath, the path is "
-               "percent-decoded before connecting, a pre-opened Unix stream is accepted and a TCP/invalid one is MismatchedStreamType; the "
+               "constructor; U3 the Unix constructor: empty path -> EmptyUnixPath, ':' in the path -> PortInUnixPath; the FUNCTION from the URL's host string to the path handed to UnixStream::connect is exactly one percent-decoding D (percent_decode / percent_decode_str + decode_utf8_lossy / decode_utf8; text-preserving conversions looked through; helpers introduced later are expanded, so a decoding inside a helper and one at the call site compose visibly): D(host) - host itself or D(D(host)) name another file (`%2541` names `%41`, twice decoded dials `A`); the emptiness test is made on the host string (or its one decoding, empty exactly when the host is), the ':' test on the UNDECODED host (an encoded `%3A` is part of the path); and the same function is decided a second time by exact evaluation on literal hosts that tell the candidates apart (rules/strdom.py, the decoder evaluated exactly on literals; an empty or absent host together with a port is not a value a Url can hold - url 2.x refuses it - so which error such a path answers is not observable); "
+               "a pre-opened Unix stream is accepted and a TCP/invalid one is MismatchedStreamType; the "
                "TCP constructor accepts a pre-opened TCP stream and rejects the others; U4 when a connection timeout is set the future of "
                "the whole TCP constructor (which contains StartTLS and the handshake) is wrapped in tokio::time::timeout with that duration "
                "and expiry is propagated as an error; U6 every builder method of the settings struct, evaluated on literals in every reachable state of the struct (the states enumerated from the constructors by the builder methods themselves), leaves every other setting reading as before - StartTLS through its getter, the verification setting in the default connector - and every opaque field (timeout, connector, stream) `self`'s own; how the struct keeps its settings (a bool each, bits of a flags byte) is not read (a method that resets another setting drops what was requested before it in the chain); U6.request-recorded after set_x(v) every Option-valued setting x (connection timeout, pre-opened stream, the caller's connector / configuration) reads v - the payload its consumer takes out of the field is the setter's argument - from every reachable state, the one in which x was already set included (Option's `&mut self` methods are modelled exactly: `= Some(v)`, replace, insert, mem::replace are the same, get_or_insert keeps the first value and is reported). Not decided: unreachable endpoints (OS behaviour); the url crate's parser.")
@@ -135,6 +135,105 @@ def check_requests_recorded(ctx, f, R):
                     '%s(%s) does not make the setting read `%s` from every reachable state of the settings: %s - %s is not what the caller asked for last (%d of %d setter paths over the reachable states)' % (
                         nm, ts[0]['argname'] if ts else '..', ts[0]['argname'] if ts else '..', '; '.join(bad) or 'the setter has no feasible path', R.OPT_READER[role], len([t for t in ts if R.opt_reading(role, t) != ('arg',)]), len(ts)))
     ctx.floor('U6.request-recorded', 'Option-valued setters evaluated (timeout, pre-opened stream; connector / configuration with a TLS back end)', n, 2)
+
+# ---- U3: the function from the URL's host string to the path that is dialled
+
+PCT = ('percent_encoding::percent_decode', 'percent_encoding::percent_decode_str')
+SAME_TEXT = ('as_ref', 'as_str', 'as_bytes', 'as_mut', 'deref', 'borrow', 'to_string', 'to_owned', 'into_owned', 'into', 'from', 'clone', 'to_vec', 'into_bytes', 'into_string', 'as_os_str', 'as_path')
+
+def decodings(t, host):
+    """t read as D^n(host): D = one percent-decoding, `percent_decode(x) / percent_decode_str(x)` followed by `.decode_utf8_lossy()`
+    or by the Ok payload of `.decode_utf8()`; conversions between the string types that keep the text (SAME_TEXT: borrowing,
+    owning, Cow / String / &str / &[u8] / Path views of the same octets) are looked through.  Returns (n, None) when t is exactly
+    that, (n, rest) with the sub-term that is neither when it is not."""
+    n = 0
+    while True:
+        if t == host:
+            return n, None
+        if t[0] == 'call' and len(t[2]) == 1 and t[1].rsplit('::', 1)[-1] in SAME_TEXT:
+            t = t[2][0]; continue
+        if t[0] == 'ctor' and t[1] in ('Cow::Borrowed', 'Cow::Owned', 'Borrowed', 'Owned') and len(t[2]) == 1:
+            t = t[2][0]; continue
+        if t[0] in ('ref', 'deref', 'cast') and len(t) >= 2 and isinstance(t[1], tuple):
+            t = t[1]; continue
+        d = None
+        if t[0] == 'call' and t[1].endswith('::decode_utf8_lossy') and len(t[2]) == 1:
+            d = t[2][0]
+        elif t[0] == 'variant' and t[2] == 'Ok' and t[3] == 0 and t[1][0] == 'call' and t[1][1].endswith('::decode_utf8') and len(t[1][2]) == 1:
+            d = t[1][2][0]
+        if d is not None and d[0] == 'call' and d[1] in PCT and len(d[2]) == 1:
+            n += 1
+            t = d[2][0]; continue
+        return n, t
+
+LITERAL_HOSTS = ['%2Ftmp%2Fa', '%2Ftmp%2Fa%2541', '%252F', 'sock', 'a%3Ab', '%2Ftmp%2F%C3%A9', '100%', '', '[::1]', None]
+
+def check_unix_path_function(ctx, f, U, USETT, F_STREAM):
+    """U3.path-function - "ldapi to the percent-decoded Unix socket path", decided a second time by exact evaluation on literal host
+    strings that tell the candidates apart (rules/strdom.py: str functions and the percent-decoder evaluated exactly on literals;
+    nothing is executed): a path that needs decoding, one whose decoded form still contains an escape (`%2541` names `%41`: decoding
+    once gives `%41`, twice gives `A`, not at all leaves `%2541`), `%252F`, a host without escapes, an encoded colon (part of the
+    path, not a port), a non-ASCII octet pair, a lone `%`, the empty host, a host with ':' and an absent host.  With no pre-opened
+    stream: the socket dialled is exactly the one decoding of the host (Url::port() absent), EmptyUnixPath for the empty / absent
+    host, PortInUnixPath for a ':' in the undecoded host or a port, and nothing is dialled on an error path."""
+    dom = strdom.StrDomain(f)
+    ss = ('field', USETT, F_STREAM)
+    def reduce(t):
+        if t[0] == 'variant' and t[2] == 'Ok' and t[3] == 0 and t[1][0] == 'utf8' and t[1][1][0] == 'lit':
+            d = strdom.pct_decode_exact(t[1][1][1])
+            return ('lit', d) if d is not None else t
+        if t[0] == 'call' and len(t[2]) == 1 and t[1].rsplit('::', 1)[-1] in SAME_TEXT:
+            return reduce(t[2][0])
+        return t
+    n = 0
+    for host in LITERAL_HOSTS:
+        def inputs(I, cal, args, node, st, host=host):
+            if cal == 'url::Url::host_str' and len(args) == 1:
+                return [absx.Out('val', strdom.NONE if host is None else strdom.some(('lit', host)), st)]
+            return None
+        outs = absx.Interp(f, U, summaries=[inputs, dom.summary], unroll=1, combinators=True, domain=dom).run(root=U.root['body'] if U.root['k'] == 'Closure' else U.root)
+        shown = 'an absent host' if host is None else 'host `%s`' % host
+        want_err = 'LdapError::EmptyUnixPath' if not host else 'LdapError::PortInUnixPath' if ':' in host else None
+        want_path = None if want_err else strdom.pct_decode_exact(host)
+        dialled = 0
+        for o in outs:
+            pcs = [(strip_site(a), t) for a, t in o.st.pc]
+            if absx.pc_variant(pcs, lambda v: v == ss, 'None') is not True:
+                continue
+            n += 1
+            v = strip_site(o.val)
+            if v[0] == 'tryerr' and v[1][0] == 'ctor' and v[1][1] == 'Err':
+                v = v[1]
+            con = [e for e in o.st.ev if e[0] == 'call' and e[1].endswith('UnixStream::connect')]
+            port = absx.pc_variant(pcs, lambda v: v[0] == 'call' and v[1] == 'url::Url::port', 'Some')
+            err = v[2][0][1] if o.kind == 'ret' and v[0] == 'ctor' and v[1] == 'Err' and v[2][0][0] == 'ctor' else None
+            if want_err or port is True:
+                w = want_err or 'LdapError::PortInUnixPath'
+                # (an empty or absent host together with a port is not a value a Url can hold - url 2.x: "Port with an empty host"
+                # is ParseError::EmptyHost, set_port refuses a URL without host - so which of the two errors such a path of the
+                # constructor answers is not observable; the url crate's parser is trusted)
+                either = not host and port is True and err in ('LdapError::EmptyUnixPath', 'LdapError::PortInUnixPath')
+                ctx.add('U3.path-function', '%s|error' % (host,), loc(U.root), (err == w or either) and not con,
+                        'for %s%s the Unix constructor %s; expected %s and no connection' % (shown, ' with a port' if port is True and not want_err else '',
+                            'dials %s' % absx.fmt(strip_site(con[0][2][0]))[:60] if con else 'answers %s' % (err or absx.fmt(v)[:50]), w.split('::')[-1]))
+                continue
+            if not con:
+                ctx.add('U3.path-function', '%s|dial' % (host,), loc(U.root), False,
+                        'for %s (no port) a path of the Unix constructor ends in %s without dialling' % (shown, err or absx.fmt(v)[:50]))
+                continue
+            dialled += 1
+            got = reduce(strip_site(con[0][2][0]))
+            twice = strdom.pct_decode_exact(want_path) if want_path is not None else None
+            why = ('it is not reduced to a literal: %s' % absx.fmt(got)[:80] if got[0] != 'lit' else
+                   'the path is not decoded at all' if got[1] == host and host != want_path else
+                   'the path is decoded twice: the file `%s` is named, `%s` is dialled' % (want_path, got[1]) if got[1] == twice and twice != want_path else
+                   'it dials `%s`' % (got[1],))
+            ctx.add('U3.path-function', '%s|dial' % (host,), loc(con[0][3]), got == ('lit', want_path),
+                    'for %s the socket path must be its one percent-decoding `%s`: %s' % (shown, want_path, why))
+        if not want_err:
+            ctx.add('U3.path-function', '%s|coverage' % (host,), loc(U.root), dialled >= 1, 'for %s no path of the Unix constructor dials a socket' % shown)
+    ctx.floor('U3.path-function', 'paths of the Unix constructor evaluated on literal hosts (no pre-opened stream)', n, 2 * len(LITERAL_HOSTS))
+
 
 def check_mode(ctx, f, B, outs, sc, SETT, R):
     """U2.mode-per-scheme - "ldap URLs connect over TCP ..., ldaps over TLS": which protection a connection gets is decided by the
@@ -342,6 +441,8 @@ def run(ctx):
     uouts = absx.Interp(f, U, unroll=1, combinators=True).run(root=U.root['body'] if U.root['k'] == 'Closure' else U.root)
     UURL, USETT = one_param(ctx, f, U, '&Url', is_url), one_param(ctx, f, U, 'LdapConnSettings', is_settings)
     hs = ('call', 'url::Url::host_str', (UURL,), None)
+    HOST = ('variant', hs, 'Some', 0)
+    check_unix_path_function(ctx, f, U, USETT, F_STREAM)
     seen = set()
     for o in uouts:
         pcs = [(strip_site(a), t) for a, t in o.st.pc]
@@ -357,6 +458,25 @@ def run(ctx):
             other_contains = [a for a, t in pcs if a[0] == 'call' and a[1].endswith('::contains') and a[2][1] != ('lit', ':')]
             if other_contains:
                 ctx.fail('U3.port-test', 'contains', loc(U.root), 'the socket path is tested for %s instead of ":"' % absx.fmt(other_contains[0][2][1]))
+            # which strings the tests are made on: emptiness on the host string (or on its one decoding: D maps a non-empty string to
+            # a non-empty one - every escape and every other octet yields at least one octet, a lossy conversion at least one
+            # character per invalid sequence - so the two tests agree); "port-bearing" on the UNDECODED host, as the property
+            # names it and the code always did: an encoded colon (`%3A`) is part of the socket path, a test on the decoded
+            # path would refuse it
+            absent = any(a == ('is', hs, 'Some') and not t for a, t in pcs)
+            for a, t in pcs:
+                if a[0] == 'call' and a[1].endswith('::is_empty') and len(a[2]) == 1:
+                    nd, rest = decodings(a[2][0], HOST)
+                    if rest == ('lit', '') and absent:
+                        rest = None         # the default that stands for the absent host (`unwrap_or("")`)
+                    ctx.add('U3.tests-on-the-host-string', 'empty', loc(U.root), rest is None and nd <= 1, 'the emptiness test of the ldapi path is made on %s, not on the URL\'s host string' % absx.fmt(a[2][0])[:80])
+                elif a[0] == 'call' and a[1].endswith('::contains') and len(a[2]) == 2 and a[2][1] == ('lit', ':'):
+                    nd, rest = decodings(a[2][0], HOST)
+                    if rest == ('lit', '') and absent:
+                        rest = None
+                    ctx.add('U3.tests-on-the-host-string', 'port', loc(U.root), rest is None and nd == 0,
+                            'the ":" test of the ldapi path is made on %s, not on the undecoded host string: %s' % (absx.fmt(a[2][0])[:80],
+                                'a socket path with an encoded colon (`%3A`) is refused as port-bearing' if rest is None else 'which string is tested is not decided'))
             if empty is True:
                 seen.add('empty')
                 ctx.add('U3.empty-path', 'ldapi:///', loc(U.root), v == ('ctor', 'Err', (('ctor', 'LdapError::EmptyUnixPath', ()),)) and not con, 'an empty socket path must be EmptyUnixPath')
@@ -370,9 +490,16 @@ def run(ctx):
                 noport = absx.pc_variant(pcs, lambda v: v[0] == 'call' and v[1] == 'url::Url::port', 'Some')
                 ctx.add('U3.port-bearing-url-rejected', 'ldapi://path:port', loc(con[0][3]), noport is False,
                         'the Unix socket is dialled on a path that never tested Url::port(): `ldapi://%2Fsock:389` connects instead of returning PortInUnixPath')
+                # the FUNCTION from the host string to what is dialled: exactly one percent-decoding D of the URL's host string -
+                # host itself names another file whenever the path needs an escape, D(D(host)) whenever the decoded path contains
+                # `%` + two hex digits (`%2541` names `%41` and `A` would be dialled)
                 arg = strip_site(con[0][2][0])
-                ok = any(x[1].endswith('percent_decode') for x in absx.leaves(arg, lambda x: x[0] == 'call')) and absx.leaves(arg, lambda x: x == hs) != []
-                ctx.add('U3.percent-decoded-path', 'connect', loc(con[0][3]), ok, 'the socket path must be the percent-decoded host part of the URL: %s' % absx.fmt(arg)[:100])
+                nd, rest = decodings(arg, HOST)
+                ctx.add('U3.percent-decoded-path', 'connect', loc(con[0][3]), nd == 1 and rest is None,
+                        'the socket path must be the URL\'s host string percent-decoded exactly once: %s (%s)' % (
+                            'what is dialled is not read as percent-decodings of the host string, at %s' % absx.fmt(rest)[:60] if rest is not None else
+                            'the host string is dialled undecoded' if nd == 0 else
+                            'it is decoded %d times: `ldapi://%%2Ftmp%%2Fldapi%%2541.sock` names the file /tmp/ldapi%%41.sock and /tmp/ldapiA.sock is dialled' % nd, absx.fmt(arg)[:100]))
         else:
             kinds = [a[2] for a, t in pcs if t and a[0] == 'is' and a[1] == ('variant', ss, 'Some', 0)]
             if 'StdStream::Unix' in kinds:
